@@ -76,6 +76,87 @@ Proof.
   - apply (Fin (pact b) v1 dR1 dP1 None HR1 HP1 Ha H).
 Qed.
 
+(* augmented_integration = "rk4": the whole A-FSSH pass keeps both moment families and the density matrix Hermitian, whatever the hop and collapse decisions *)
+Lemma step_af_rk4_hermitian n m dt poisson zeta eprev e0 e1 fm1 lam Cm etas (s s' : astate (T:=R)) att coll :
+  step_af_rk4 ROps n m dt poisson zeta eprev e0 e1 fm1 lam Cm etas s = (s', att, coll) ->
+  mherm n (Wmid ROps n (eH eprev) (eH e0) (etau eprev) (etau e0) (pv (ab s)) (alastv s)) ->
+  (forall v1, mherm n (Wmid ROps n (eH e0) (eH e1) (etau e0) (etau e1) v1 (pv (ab s)))) ->
+  length lam = n -> unitary n (mget ROps Cm) -> (pact (ab s) < n)%nat ->
+  (forall t, att = Some (t, true) -> (t < n)%nat) ->
+  Forall (fun fmx => forall i j, (i < n)%nat -> (j < n)%nat -> nth j (nth i fmx []) (o0 ROps) = nth i (nth j fmx []) (o0 ROps)) fm1 ->
+  Forall (mherm n) (adelR s) -> Forall (mherm n) (adelP s) -> mherm n (prho (ab s)) ->
+  Forall (mherm n) (adelR s') /\ Forall (mherm n) (adelP s') /\ mherm n (prho (ab s')).
+Proof.
+  intros H HWp HW Hl HC Ha Htn Hfm HR HP Hrho.
+  unfold step_af_rk4 in H.
+  set (b := ab s) in *.
+  set (dR1 := map _ (combine m (combine (adelR s) (adelP s)))) in H.
+  set (v1 := advance_velocity ROps m (pv b) _ _ dt) in H.
+  set (dP1 := map _ (combine (nth (pact b) (eforce e1) []) (combine fm1 (adelP s)))) in H.
+  set (rho1 := exp_step ROps n lam Cm dt (prho b)) in H.
+  assert (Forall (mherm n) dR1) as HR1.
+  { unfold dR1. apply Forall_map_combine3. intros mx R P HinR HinP. apply delR_rk4_herm.
+    - exact HWp.
+    - apply (proj1 (Forall_forall _ _) HR R HinR).
+    - apply (proj1 (Forall_forall _ _) HP P HinP). }
+  assert (Forall (mherm n) dP1) as HP1.
+  { unfold dP1. apply Forall_map_combine3. intros fx fmx P Hinf HinP. apply delP_rk4_herm.
+    - apply HW.
+    - apply (proj1 (Forall_forall _ _) HP P HinP).
+    - apply delF_herm. apply (proj1 (Forall_forall _ _) Hfm fmx Hinf).
+    - exact Hrho. }
+  assert (mherm n rho1) as Hr1.
+  { destruct (exp_step_valid n lam Cm dt (prho b) Hl HC) as (A & _). apply A. exact Hrho. }
+  destruct (hopper ROps poisson _ zeta) as [tg hp].
+  assert (forall (a2 : nat) (v2 : list R) dR2 dP2 att0,
+            Forall (mherm n) dR2 -> Forall (mherm n) dP2 -> (a2 < n)%nat ->
+            (let gam := gamma_collapse ROps n (map (rediag ROps n) dR2) (map (rediag ROps n) dP2)
+                          (tabulate n (fun i => map (fun fmx => nth i (nth i fmx []) (o0 ROps)) fm1)) a2 dt in
+             let '(coll0, _) := collapse_scan ROps gam a2 0 etas in
+             let '(rho3, dR3, dP3) := collapse_apply ROps n a2 coll0 rho1 dR2 dP2 in
+             (mkA (mkT (advance_position ROps m (px b) (pv b) (nth (pact b) (eforce e0) []) dt) v2 rho3 a2 (oadd ROps (ptime b) dt)) (pv b) dR3 dP3, att0, coll0))
+            = (s', att, coll) ->
+            Forall (mherm n) (adelR s') /\ Forall (mherm n) (adelP s') /\ mherm n (prho (ab s'))) as Fin.
+  { intros a2 v2 dR2 dP2 att0 H2R H2P Ha2 E. cbv zeta in E.
+    destruct (collapse_scan ROps _ a2 0 etas) as [c0 r0]. destruct c0; cbn [collapse_apply] in E; injection E as <- _ _; cbn [adelR adelP ab prho].
+    - repeat split.
+      + apply Forall_forall. intros M HM. apply in_map_iff in HM. destruct HM as [? [<- _]]. apply zero_herm.
+      + apply Forall_forall. intros M HM. apply in_map_iff in HM. destruct HM as [? [<- _]]. apply zero_herm.
+      + apply (proj1 (collapse_state n a2 Ha2)).
+    - repeat split; assumption. }
+  destruct tg as [t|].
+  - destruct (hop_to_it ROps m v1 (pact b) t (diagE ROps n e1) (afssh_direction ROps dP1 (pact b) t)) as [[a' v'] acc] eqn:Eh.
+    destruct acc.
+    + assert (a' = t) as -> by (unfold hop_to_it in Eh; destruct (hop_allowed _ _ _ _ _); [injection Eh as <- _; reflexivity | discriminate]).
+      assert (t < n)%nat as Ht.
+      { apply Htn. cbv zeta in H. destruct (collapse_scan ROps _ t 0 etas) as [c0 r0]. destruct (collapse_apply ROps n t c0 rho1 (map (hop_shift ROps n t) dR1) (map (hop_shift ROps n t) dP1)) as [[? ?] ?]. injection H as _ <- _. reflexivity. }
+      apply (Fin t v' (map (hop_shift ROps n t) dR1) (map (hop_shift ROps n t) dP1) (Some (t, true))); [ | | exact Ht | exact H].
+      * apply Forall_forall. intros M HM. apply in_map_iff in HM. destruct HM as [M0 [<- HM0]]. apply hop_shift_herm; [exact Ht | apply (proj1 (Forall_forall _ _) HR1 M0 HM0)].
+      * apply Forall_forall. intros M HM. apply in_map_iff in HM. destruct HM as [M0 [<- HM0]]. apply hop_shift_herm; [exact Ht | apply (proj1 (Forall_forall _ _) HP1 M0 HM0)].
+    + assert (a' = pact b) as -> by (unfold hop_to_it in Eh; destruct (hop_allowed _ _ _ _ _); [discriminate | injection Eh as <- _; reflexivity]).
+      apply (Fin (pact b) v' dR1 dP1 (Some (t, false)) HR1 HP1 Ha H).
+  - apply (Fin (pact b) v1 dR1 dP1 None HR1 HP1 Ha H).
+Qed.
+
+
+(* the active state after a pass *)
+Lemma step_af_rk4_active n m dt poisson zeta eprev e0 e1 fm1 lam Cm etas (s s' : astate (T:=R)) att coll :
+  step_af_rk4 ROps n m dt poisson zeta eprev e0 e1 fm1 lam Cm etas s = (s', att, coll) ->
+  pact (ab s') = match att with Some (t, true) => t | _ => pact (ab s) end.
+Proof.
+  unfold step_af_rk4. destruct (hopper ROps poisson _ zeta) as [tg hp]. destruct tg as [t|].
+  - destruct (hop_to_it ROps m _ (pact (ab s)) t _ _) as [[a' v'] acc] eqn:Eh. destruct acc.
+    + assert (a' = t) as -> by (unfold hop_to_it in Eh; destruct (hop_allowed _ _ _ _ _); [injection Eh as <- _; reflexivity | discriminate]).
+      cbv zeta. destruct (collapse_scan ROps _ t 0 etas) as [c0 r0]. destruct (collapse_apply ROps n t c0 _ _ _) as [[? ?] ?].
+      intros H; injection H as <- <- _. reflexivity.
+    + assert (a' = pact (ab s)) as -> by (unfold hop_to_it in Eh; destruct (hop_allowed _ _ _ _ _); [discriminate | injection Eh as <- _; reflexivity]).
+      cbv zeta. destruct (collapse_scan ROps _ (pact (ab s)) 0 etas) as [c0 r0]. destruct (collapse_apply ROps n _ c0 _ _ _) as [[? ?] ?].
+      intros H; injection H as <- <- _. reflexivity.
+  - cbv zeta. destruct (collapse_scan ROps _ (pact (ab s)) 0 etas) as [c0 r0]. destruct (collapse_apply ROps n _ c0 _ _ _) as [[? ?] ?].
+    intros H; injection H as <- <- _. reflexivity.
+Qed.
+
+
 (* ---- whole A-FSSH runs ---- *)
 Definition af_ok (n : nat) (d : adata (T:=R)) : Prop :=
   length (alam d) = n /\ unitary n (mget ROps (aC d))
